@@ -6,6 +6,7 @@ SESS = "hippolyzer/lib/proxy/sessions.py"
 MSG = "hippolyzer/lib/base/message/message.py"
 ADDONS = "hippolyzer/lib/proxy/addons.py"
 CAPS = "hippolyzer/lib/proxy/caps.py"
+LLSD = "hippolyzer/lib/base/llsd.py"
 
 _FILTER = (
     "                    new_events = []\n"
@@ -303,6 +304,28 @@ VARIANTS = [
             "                    cap_region = region\n",
      "new": "            cap_region = next((r for r in cap_session.regions if r.circuit\n"
             "                               and ser_cap_data.region_addr == str(r.circuit_addr)), None)\n"},
+    # ---- round 8
+    {"name": "R3 registering a cap resets the event queue manager", "file": REG, "expect": "C17.R3",
+     "old": "        self.caps.add(name, (cap_type, cap_url))\n        self._recalc_caps()\n",
+     "new": "        self.caps.add(name, (cap_type, cap_url))\n        self._recalc_caps()\n"
+            "        if name == \"EventQueueGet\":\n            self.eq_manager.clear()\n"},
+    {"name": "P R3 teardown clears the event queue manager through a helper only it calls", "expect": "silent",
+     "edits": [
+         {"file": REG, "old": "        super().mark_dead()\n        self.eq_manager.clear()\n",
+          "new": "        super().mark_dead()\n        self._drop_event_queue_state()\n"},
+         {"file": REG, "old": "    def mark_dead(self):\n",
+          "new": "    def _drop_event_queue_state(self):\n        self.eq_manager.clear()\n\n    def mark_dead(self):\n"},
+     ]},
+    {"name": "R1 parse_xml answers undef for bodies it cannot parse", "file": LLSD, "expect": "C17.R1",
+     "old": "def parse_xml(data: bytes):\n    return base_llsd.parse_xml(data)\n",
+     "new": "def parse_xml(data: bytes):\n    try:\n        return base_llsd.parse_xml(data)\n"
+            "    except Exception:\n        return None\n"},
+    {"name": "P R1 parse_xml annotates and re-raises parse errors", "file": LLSD, "expect": "silent",
+     "old": "def parse_xml(data: bytes):\n    return base_llsd.parse_xml(data)\n",
+     "new": "def parse_xml(data: bytes):\n    try:\n        return base_llsd.parse_xml(data)\n"
+            "    except Exception as e:\n        raise ValueError(f\"bad LLSD+XML: {e}\") from e\n"},
+    {"name": "P R2 take_injected_events as a tuple swap", "file": REG, "expect": "silent",
+     "old": _TAKE, "new": "        events, self._queued_events = self._queued_events, []\n"},
     # ---- documented limit
     {"name": "X swallow on any truthy hook result instead of `is True` (value level)", "file": HEM, "expect": "miss",
      "old": "        if handle_event is True:\n", "new": "        if handle_event:\n"},
